@@ -31,6 +31,7 @@ partial def parseStmt (j : Json) : Except String Stmt := do
   | "raise" => return .raise
   | "raiseBase" => return .raiseBase
   | "try" => return .try_ (← body "body")
+  | "other" => return .other (← getNat j "k")
   | s => throw s!"unknown stmt {s}"
 
 def jRes : Res → Json
@@ -132,6 +133,13 @@ partial def branchesOf : List Item → List String
     s!"model:{k}:{if b then "batched" else "open"}{if tr then ":triggering" else ""}:{if res == .ok then "ok" else "raised"}" ::
       (branchesOf ch ++ branchesOf rest)
 
+/-- the `other k` statements a log shows, in execution order -/
+partial def otherKs : List Item → List Nat
+  | [] => []
+  | (.call _ _ _ _ ch _) :: rest => otherKs ch ++ otherKs rest
+  | (.stmt "other" k _ _ _ _ _ _ _) :: rest => k :: otherKs rest
+  | (.stmt _ _ _ _ _ _ _ ch _) :: rest => otherKs ch ++ otherKs rest
+
 def handle (req : Json) : Except String Json := do
   let case ← req.getObjVal? "case"
   if (getStr case "kind").toOption == some "equal" then return ← handleEqual req case
@@ -144,46 +152,69 @@ def handle (req : Json) : Except String Json := do
     | _ => []
   let cfg : Cfg := { bounds := bounds, bodies := bodies, events := events }
   let vals ← (← getArr case "init").toList.mapM (·.getInt?)
-  let regs0 ← (← getArr case "watchers").toList.mapM parseWatcher
-  -- the Watcher objects made by the harness before the program starts: identities 0, 1, …
-  let regs := regs0.zipIdx.map (fun (wt, i) => { wt with uid := i })
   let prog ← (← getArr case "program").toList.mapM parseStmt
   let prop := (getStr case "prop").toOption.getD "C03"
   let fuel := 1000000
-  -- top-level statements, each under the harness's try/except, world observed after each
-  let w0 : World := { vals := vals, regs := regs, batch := false, trigger := false, events := [], queued := [], nreg := regs.length,
-                      slotKeys := regs.flatMap (fun wt => if wt.what = 0 then [] else wt.params.map (fun p => (p, wt.what))) }
-  let (_, revSteps, revRuns) := prog.foldl (fun (acc : World × List Json × List (World × Res × World × List Item)) s =>
-      let (w, l, rs) := acc
-      let (r, w', o) := run cfg fuel (.stmt s) w
-      (w', Json.mkObj ([("res", jRes r), ("items", Json.arr (o.map jItem).toArray),
-                         ("slots", jSlots cfg.nparams w')] ++ jWorld w') :: l,
-        (w, r, w', o) :: rs)) (w0, [], [])
-  let model := Json.mkObj [("steps", Json.arr revSteps.reverse.toArray)]
+  -- one object: its watchers, then top-level statements, each under the harness's try/except, world observed after each
+  let runObject (regs0 : List Watcher) (prog : List Stmt) : List Watcher × List Json × List (World × Res × World × List Item) :=
+    -- the Watcher objects made by the harness before the program starts: identities 0, 1, …
+    let regs := regs0.zipIdx.map (fun (wt, i) => { wt with uid := i })
+    let w0 : World := { vals := vals, regs := regs, batch := false, trigger := false, events := [], queued := [], nreg := regs.length,
+                        slotKeys := regs.flatMap (fun wt => if wt.what = 0 then [] else wt.params.map (fun p => (p, wt.what))) }
+    let (_, revSteps, revRuns) := prog.foldl (fun (acc : World × List Json × List (World × Res × World × List Item)) s =>
+        let (w, l, rs) := acc
+        let (r, w', o) := run cfg fuel (.stmt s) w
+        (w', Json.mkObj ([("res", jRes r), ("items", Json.arr (o.map jItem).toArray),
+                           ("slots", jSlots cfg.nparams w')] ++ jWorld w') :: l,
+          (w, r, w', o) :: rs)) (w0, [], [])
+    (regs, revSteps.reverse, revRuns.reverse)
+  let regsA ← (← getArr case "watchers").toList.mapM parseWatcher
+  let (regs, stepsA, runsA) := runObject regsA prog
+  -- the second object: the statement lists named by the `other` statements the first object executed, in
+  -- execution order (pre-order of its log), replayed on an independent world with watchers of its own
+  let others ← match case.getObjVal? "others" with
+    | .ok (.arr a) => a.toList.mapM fun b => do (← b.getArr?).toList.mapM parseStmt
+    | _ => pure []
+  let regsB ← match case.getObjVal? "watchers2" with
+    | .ok (.arr a) => a.toList.mapM parseWatcher
+    | _ => pure []
+  let prog2 := (otherKs (runsA.flatMap fun (_, _, _, o) => o)).flatMap fun k => others.getD k []
+  let (regs2, stepsB, runsB) := runObject regsB prog2
+  let hasTwin := match case.getObjVal? "others" with | .ok (.arr _) => true | _ => false
+  let model := Json.mkObj ([("steps", Json.arr stepsA.toArray)] ++
+    (if hasTwin then [("steps2", Json.arr stepsB.toArray)] else []))
+  let allRuns := runsA ++ runsB
   -- the harness gave up on the implementation after too many callback invocations: how many does the model make?
   if (req.getObjVal? "calls_only").toOption == some (Json.bool true) then
-    let last := match revRuns.head? with | some (_, _, w', _) => w'.ncalls | none => 0
-    return Json.mkObj [("ncalls", toJson last), ("oof", Json.bool (revRuns.any fun (_, r, _, _) => r == Res.oof))]
+    let last (rs : List (World × Res × World × List Item)) := match rs.getLast? with | some (_, _, w', _) => w'.ncalls | none => 0
+    return Json.mkObj [("ncalls", toJson (last runsA + last runsB)), ("oof", Json.bool (allRuns.any fun (_, r, _, _) => r == Res.oof))]
   -- oracle on the implementation's observation
   let impl ← req.getObjVal? "impl"
-  let implSteps ← (← getArr impl "steps").toList.mapM fun st => do
-    let items ← (← getArr st "items").toList.mapM parseItem
-    let vals ← (← getArr st "vals").toList.mapM (·.getInt?)
-    let evs := (← getArr st "events").size
-    let q ← (← getArr st "queued").toList.mapM (·.getNat?)
-    return ({ items := items, vals := vals, batch := ← getBool st "batch", trigger := ← getBool st "trigger",
-              nevents := evs, queued := q } : StepObs)
-  let modelSteps : List StepObs := revRuns.reverse.map fun (_, _, w', o) =>
+  let parseSteps (key : String) : Except String (List StepObs) := do
+    match impl.getObjVal? key with
+    | .ok (.arr a) => a.toList.mapM fun st => do
+      let items ← (← getArr st "items").toList.mapM parseItem
+      let vals ← (← getArr st "vals").toList.mapM (·.getInt?)
+      let evs := (← getArr st "events").size
+      let q ← (← getArr st "queued").toList.mapM (·.getNat?)
+      return ({ items := items, vals := vals, batch := ← getBool st "batch", trigger := ← getBool st "trigger",
+                nevents := evs, queued := q } : StepObs)
+    | _ => pure []
+  let implSteps ← parseSteps "steps"
+  let implSteps2 ← parseSteps "steps2"
+  let obsOf (rs : List (World × Res × World × List Item)) : List StepObs := rs.map fun (_, _, w', o) =>
     { items := o, vals := w'.vals, batch := w'.batch, trigger := w'.trigger, nevents := w'.events.length,
       queued := w'.queued.map (·.id) }
   let watchers := allWatchers regs prog bodies
-  let specI := specProgram prop cfg watchers vals implSteps
-  let specM := specProgram prop cfg watchers vals modelSteps
+  let watchers2 := allWatchers regs2 prog2 bodies
+  let tag2 (o : Option String) : Option String := o.map (fun s => "second object: " ++ s)
+  let specI := (specProgram prop cfg watchers vals implSteps).orElse fun _ => tag2 (specProgram prop cfg watchers2 vals implSteps2)
+  let specM := (specProgram prop cfg watchers vals (obsOf runsA)).orElse fun _ => tag2 (specProgram prop cfg watchers2 vals (obsOf runsB))
   let optJ : Option String → Json := fun | some s => Json.str s | none => Json.null
-  let anyOof := revRuns.any fun (_, r, _, _) => r == Res.oof
+  let anyOof := allRuns.any fun (_, r, _, _) => r == Res.oof
   return Json.mkObj [("model", model), ("applicable", Json.bool (!anyOof)),
     ("spec_impl", optJ specI), ("spec_model", optJ specM),
-    ("branches", Json.arr ((revRuns.flatMap fun (_, _, _, o) => branchesOf o).eraseDups.map Json.str).toArray),
-    ("checked_steps", toJson implSteps.length)]
+    ("branches", Json.arr ((allRuns.flatMap fun (_, _, _, o) => branchesOf o).eraseDups.map Json.str).toArray),
+    ("checked_steps", toJson (implSteps.length + implSteps2.length))]
 
 def main : IO Unit := serve handle
